@@ -113,6 +113,21 @@ def run_meaning(case):
                                 key + "/%s/extra-excitation-%d" % ("aufbau-ref" if auf else "non-aufbau-ref", min(extra, 1)), ref_det=[list(lst[0][0]), list(lst[0][1])],
                                 max_excitation=mexc))
             cnt["order_reference_checks"] += 1
+        if variant == 1 and need >= 2:
+            # history on ONE trial object: used, then its excitation cut-off lowered in place (same wave_data), used again - it must now
+            # behave like a freshly constructed trial with that cut-off (trial objects are hashed static arguments of jitted methods)
+            from ad_afqmc import wavefunctions as wf_
+
+            k_cut = need - 1
+            fresh = wf_.multislater(norb, (na, nb), max_excitation=k_cut)
+            trial.max_excitation = k_cut
+            worst_m = 0.0
+            for (wu, wd), n_ in zip(walkers, nrm):
+                o_mut = complex(trial._calc_overlap(jnp.array(wu), jnp.array(wd), wdat))
+                o_new = complex(fresh._calc_overlap(jnp.array(wu), jnp.array(wd), wdat))
+                worst_m = max(worst_m, abs(o_mut - o_new) / n_)
+            events.append(judge("meaning/cut-off-lowered-in-place-equals-fresh-trial", worst_m, 1e-12, key + "/mutated-trial-object", old=mexc, new=k_cut))
+            cnt["mutated_trial_objects"] = cnt.get("mutated_trial_objects", 0) + 1
     return {"events": events, "nontrivial": len(dets) >= 3, "sample": {"norb": norb, "nelec": [na, nb], "ndets": len(dets), "non_aufbau_refs": cnt["non_aufbau_references"]},
             "counters": cnt}
 
